@@ -31,6 +31,8 @@ def dep_eval(name, co, x):
         return co[0] + co[1] / (1 + co[2] * x)
     if name == "lnsq":
         return np.log(co[0] + co[1] * np.sqrt(x / 9.81))
+    if name == "sat":
+        return co[0] + co[1] * x / (1 + x)
     if name == "const":
         return co[0]          # a scalar whatever the shape of x (a dependence function may ignore x)
     raise KeyError(name)
@@ -54,6 +56,10 @@ def dep_callable(name, co):
         def lnsq(x, a=co[0], b=co[1]):
             return np.log(a + b * np.sqrt(np.divide(x, 9.81)))
         return lnsq
+    if name == "sat":
+        def sat(x, a=co[0], b=co[1]):
+            return a + b * x / (1 + x)
+        return sat
     if name == "const":
         def const(x, a=co[0]):
             return a
@@ -61,18 +67,31 @@ def dep_callable(name, co):
     raise KeyError(name)
 
 
-def rand_dep(rng, positive=True, allow_const=False):
+# how a parameter may depend on the conditioning value: shape-like parameters and log-scale parameters get bounded /
+# slowly growing functions, so that chains of conditional variables stay inside the floating-point range
+PCLASS = {("W", "alpha"): "scale", ("W", "beta"): "shape", ("LN", "mu"): "log", ("LN", "sigma"): "shape",
+          ("NF", "mu_norm"): "scale", ("NF", "sigma_norm"): "scale", ("EW", "alpha"): "scale", ("EW", "beta"): "shape",
+          ("EW", "delta"): "shape", ("GG", "m"): "shape", ("GG", "c"): "shape", ("GG", "lambda_"): "scale",
+          ("N", "mu"): "loc", ("N", "sigma"): "shape", ("VM", "kappa"): "shape", ("VM", "mu"): "angle"}
+
+
+def rand_dep(rng, pclass="scale", allow_const=False):
     u = rng.uniform
-    kinds = ["lin", "pw", "asym"] + ([] if positive else ["lnsq"]) + (["const"] if allow_const else [])
+    kinds = {"scale": ["lin", "pw", "asym", "sat"], "shape": ["asym", "sat"], "log": ["asym", "lnsq", "sat"],
+             "loc": ["lin", "asym"], "angle": ["angle"]}[pclass] + (["const"] if allow_const else [])
     k = rng.choice(kinds)
     if k == "lin":
         return ["dep", "lin", [u(0.3, 2.0), u(0.1, 0.8)]]
     if k == "pw":
-        return ["dep", "pw", [u(0.3, 2.0), u(0.1, 0.8), u(0.5, 1.6)]]
+        return ["dep", "pw", [u(0.3, 2.0), u(0.1, 0.8), u(0.5, 1.3)]]
     if k == "asym":
-        return ["dep", "asym", [u(0.2, 1.0), u(0.3, 2.0), u(0.1, 2.0)]]
+        return ["dep", "asym", [u(0.3, 1.0), u(0.3, 1.5), u(0.1, 2.0)]]
+    if k == "sat":
+        return ["dep", "sat", [u(0.3, 1.0), u(0.3, 1.5)]]
     if k == "lnsq":
         return ["dep", "lnsq", [u(1.0, 4.0), u(0.5, 8.0)]]
+    if k == "angle":
+        return ["dep", "sat", [u(-1.0, 1.0), u(0.5, 1.5)]]
     return ["dep", "const", [u(0.4, 1.5)]]
 
 
@@ -109,16 +128,12 @@ def rand_dim(rng, fam, cond, allow_const=False):
         dep_names = [rng.choice(names)]
     for n in names:
         if n in dep_names and not (fam == "W" and n == "gamma"):
-            free_sign = (fam in ("LN", "N") and n == "mu") or (fam == "VM" and n == "mu")
-            d = rand_dep(rng, positive=not free_sign, allow_const=allow_const)
-            if fam == "VM" and n == "mu" and d[1] != "const":
-                d = ["dep", "lin", [rng.uniform(-1, 1), rng.uniform(0.1, 0.5)]]
-            params[n] = d
+            params[n] = rand_dep(rng, PCLASS[(fam, n)], allow_const=allow_const)
         else:
             params[n] = ["fix", base[n]]
     if all(p[0] == "fix" for p in params.values()):
         n = names[0]
-        params[n] = rand_dep(rng, positive=True, allow_const=allow_const)
+        params[n] = rand_dep(rng, PCLASS[(fam, n)], allow_const=allow_const)
     return {"fam": fam, "cond": cond, "params": params}
 
 
